@@ -54,7 +54,14 @@ THEOREMS = [
         "applyUf_rows frfRec_with_uf solvePsd_with_uf preEig_solves "
         # Props/C02i: incrb / rf_disp_only at the level of the whole column
         "rfVals_options rfVals_length rbAcc_length rbVals_options elValsCoup_length elValsSU_rows "
-        "colSU_options colFD_options"
+        "colSU_options colFD_options "
+        # third phase: damped rigid-body modes of uncoupled systems (findings F51 / F52, repaired code)
+        "rbDamp_den frfRb_damped_solves frfRb_damped_reduces frfRbD_zero_freq frfRb_zero_freq_unsolvable "
+        "rbDamp_den_ne_zero_real rbDampRows_correct damped_rb_instances rbAccD_length "
+        # Props/C02j: SolveUnc = FreqDirect at full size (uncoupled), the full-size equation for every option value
+        "partStiff_unc_su_eq_fd colSU_eq_colFD_unc colSU_solves_options "
+        # W = 0 at full size, and the lemmas factored out for it
+        "fsolve_full_rows rbAccD_solves rbBlock_zero_freq elValsSU_solves colSU_zero_freq"
     ).split()
 ]
 TRUSTED = [
@@ -71,27 +78,48 @@ TRUSTED = [
     "solvePsdCase — is tied by correspondence only",
 ]
 RULE = (
-    "systems are generated in modal layout: every equation is rigid-body (k = b = 0), elastic (0.5-30 Hz, "
+    "systems are generated in modal layout: every equation is rigid-body (k = 0; b = 0 on the coupled path; on the "
+    "uncoupled path 60 % of the systems with rigid-body modes give them damping b in 0.05-3 times m, real or complex, "
+    "all or only some of the modes, with m None / vector / diagonal 2-D and rb automatic / explicit / permuted / bool), "
+    "elastic (0.5-30 Hz, "
     "damping ratio 0.005-2, proportional / non-proportional / diagonal damping) or residual-flexibility (stiff), "
     "blocks decoupled from each other, positions contiguous or interleaved, n <= 7, mass None / vector / full "
     "matrix, real or complex (hysteretic stiffness, complex damping or mass); rb given as nothing / index vector "
     "(also unsorted) / bool vector, rf as index vector (also unsorted); pre_eig systems are free-free or grounded "
-    "spring-damper chains in physical coordinates; every 4th system is repeated with float32 matrices and every 4th "
+    "spring chains in physical coordinates with a damper chain, stiffness-proportional, mass-proportional (also as a "
+    "damping vector) or general Rayleigh damping (the last three are diagonal after pre_eig, so a free-free model "
+    "takes the uncoupled path with a damped rigid-body mode); two fixed coupled systems with a user-given rigid-body "
+    "mode that carries damping (tied only); every 4th system is repeated with float32 matrices and every 4th "
     "with integer matrices, every 5th with complex64 forces.  Each system is run with all 8 incrb subsets x "
     "rf_disp_only in {F,T} (letters in random order; integer forms sampled), 1-4 frequencies including 0 Hz "
     "(SolveUnc), near-resonance values, repeated values and a scalar frequency, complex random forces; a fixed "
     "stream covers 1-D force arrays.  A case is one (system, options, solver) evaluation compared on every entry of "
     "d, v, a; plus one exact comparison of the constructor bookkeeping (nonrf, rb, el, _rb, _el, kdof, the rows "
     "behind the reduced m, b, k, imrb, invm) per (system, solver); plus solvepsd cases with rbduf / elduf in "
-    "{1, 1.25, 0.8, 2}.  Non-trivial = the system has at least two partitions or is coupled/complex/pre_eig; "
+    "{1, 1.25, 0.8, 2}, every 8th on a system with a damped rigid-body mode; plus one exact comparison per uncoupled "
+    "SolveUnc object of the damping its rigid-body solution reads (b[_rb] / brb) with the rows the model names.  "
+    "Non-trivial = the system has at least two partitions or is coupled/complex/pre_eig; "
     "distinct by the full input.  Cases whose measured eigen-specification residual or dynamic-stiffness condition "
     "number is outside the guard are skipped and counted."
 )
 ASSUMPTIONS = [
     "modal-space equations: rigid-body, elastic and residual-flexibility partitions are decoupled from each other "
     "(the solvers extract the diagonal blocks and ignore anything else)",
-    "rigid-body equations have zero stiffness and damping when SolveUnc is compared with FreqDirect",
-    "the dynamic stiffness of the elastic block is non-singular at the requested frequencies (cond <= 1e8 in the runs)",
+    "rigid-body equations have zero stiffness when SolveUnc is compared with FreqDirect (SolveUnc treats |k| < 0.005 as "
+    "zero, FreqDirect keeps it); their damping is arbitrary on the uncoupled path (modelled, proved, compared)",
+    "coupled systems: a rigid-body mode has zero damping by the detection rule (its row and column of k and of b are "
+    "below 0.005); a user-given rb on a coupled system with damping on those modes is outside the property - "
+    "SolveUnc solves it as a = M^-1 F, FreqDirect keeps the damping; the model does what the source does (tied by a "
+    "fixed correspondence stream), the oracle does not judge it (counted as an observation)",
+    "at exactly 0 Hz the dynamic-stiffness equation of a rigid-body row reads 0*d = F and has no solution for F != 0 "
+    "(frfRb_zero_freq_unsolvable): there the documented convention a = M^-1 F, v = d = 0 is what is required, with or "
+    "without damping (frfRbD_zero_freq), instead of the residual rule; FreqDirect is not run at 0 Hz on systems with "
+    "rigid-body modes",
+    "the dynamic stiffness of the elastic block is non-singular at the requested frequencies (cond <= 1e8 in the runs) "
+    "and so is that of every damped rigid-body row (-W^2 m + iW b != 0: automatic for real m, b - "
+    "rbDamp_den_ne_zero_real - and excludes only b = -iWm for complex b); a non-finite response is accepted only if "
+    "such a dynamic stiffness really is outside the conditioning domain (cond > 1e8; 1e5 for float32 matrices) at a "
+    "requested frequency",
     "partition vectors are valid: rf entries distinct and < n, a user rb vector distinct, < n and disjoint from rf",
     "solvepsd uncertainty factors are judged for modal-space solvers only (with pre_eig the source scales physical "
     "rows; recorded as an observation)",
@@ -99,10 +127,17 @@ ASSUMPTIONS = [
 PARTIAL = (
     "the coupled elastic block rests on the eigen-decomposition specification (hypothesis hcoup of colSU_solves = the "
     "relations of frfCoupled_solves: A U = U Lambda in partitioned form and the U^-1 partitions; residuals measured per "
-    "case, not proved); the full-size equation (colSU_solves / colFD_solves) is stated for incrb = 'dva', rf_disp_only = "
-    "False, W != 0, and every other option value / W = 0 is related to that column entry by entry (colSU_options, "
-    "colFD_options, frfRb_zero_freq) rather than by a separate full-size equation; the pre_eig path rests on the eigh "
-    "specification (preEig_solves assumes phi^T M phi = Mm etc. and det phi != 0; residual measured per case); the "
+    "case, not proved); for W != 0 the full-size equation is proved for every incrb / rf_disp_only value for SolveUnc "
+    "(colSU_solves_options) but for FreqDirect only for incrb = 'dva', rf_disp_only = False (colFD_solves), its other "
+    "option values being related to that column entry by entry (colFD_options); at W = 0 the full-size statement for "
+    "SolveUnc (colSU_zero_freq: static equation and v = a = 0 on the elastic and residual-flexibility rows, d = v = 0 "
+    "and M a = F on the rigid-body rows with any damping - the documented convention, which is not a solution of the "
+    "equation there: frfRb_zero_freq_unsolvable) is for incrb = 'dva', rf_disp_only = False, the other option values "
+    "at W = 0 following entry by entry from colSU_options (which holds for every W); SolveUnc = FreqDirect at full size is proved for uncoupled systems "
+    "(colSU_eq_colFD_unc, damped rigid-body modes included) and for coupled systems only for the elastic block "
+    "(direct_eq_modal_gauss); nothing is claimed for a user-given rb on a coupled system with damping on those modes "
+    "(the model, like the source, solves them without it: ColEnv.rbDamping; tied only); the pre_eig path rests on the "
+    "eigh specification (preEig_solves assumes phi^T M phi = Mm etc. and det phi != 0; residual measured per case); the "
     "array plumbing of the whole call (loop over the frequencies, Array/List conversions, phi^T F and phi d as "
     "executed) is tied by correspondence only; floating-point accuracy is measured, not proved"
 )
@@ -110,7 +145,10 @@ MANIFEST = {
     "level_text": "Proof (Lean 4, kernel-checked, standard axioms only) about the definitions the driver executes, over any "
     "field with an element i (instantiated at C; non-vacuity instances evaluated over ZMod 5). Formulas: the uncoupled "
     "closed forms of SolveUnc and FreqDirect solve (k - m W^2 + i W b) d = f with v = iWd, a = -W^2 d; the rigid-body "
-    "solution solves -W^2 m d = f for W != 0 and is d = v = 0, a = f/m at W = 0; for each of the 8 incrb subsets "
+    "solution of an uncoupled system (repaired code, findings F51 / F52) solves (-W^2 m + iW b) d = f for W != 0, every "
+    "m != 0 and any damping b (frfRb_damped_solves; b = 0 gives the undamped row: frfRb_damped_reduces, frfRb_solves), "
+    "is FreqDirect's row (rowUnc_eq_rowDirect) and is d = v = 0, a = f/m at W = 0 (frfRbD_zero_freq), where the "
+    "equation itself has no solution (frfRb_zero_freq_unsolvable); for each of the 8 incrb subsets "
     "exactly the complementary rigid-body rows are zero; residual-flexibility rows are static with v, a zero iff "
     "rf_disp_only; the complex-mode solution solves the matrix equation given the eigen-decomposition specification, "
     "hence equals the direct solution. Linear solves: the model's Gaussian elimination with partial pivoting returns "
@@ -119,10 +157,18 @@ MANIFEST = {
     "rb (sorted), nonrf[_el] = el and rb ++ el ++ rf a permutation of 0..n-1 for every rf / rb specification "
     "(layout_correct); the SolveUnc constructor as explicit state (get_su_eig shrinking m, b, k, kdof and emptying "
     "_rb) pairs force[rb] with the rigid-body equations' own mass rows on every path (imrb_correct; the inputs of "
-    "findings F8, F27, F28, F36 are evaluated instances). Scatter: every row of d, v, a is written exactly once by "
+    "findings F8, F27, F28, F36 are evaluated instances) and with their own damping rows - b[_rb], or brb kept by "
+    "get_su_eig before the reduction (rbDampRows_correct; the inputs of F51, F52 are evaluated instances: "
+    "damped_rb_instances). Scatter: every row of d, v, a is written exactly once by "
     "its own block (scatter_covers) and the assembled column satisfies the full-size block-diagonal-by-partition "
-    "equation row by row (fsolve_full_solves); colSU_solves / colFD_solves carry this from the constructor state "
-    "through the block solves to the returned column of SolveUnc.fsolve / FreqDirect.fsolve, and colSU_options / "
+    "equation row by row (fsolve_full_solves; the rigid-body block is iW B - W^2 M with B the diagonal damping of the "
+    "rigid-body modes on the uncoupled path and zero on the coupled path); colSU_solves / colFD_solves carry this from "
+    "the constructor state through the block solves to the returned column of SolveUnc.fsolve / FreqDirect.fsolve; for "
+    "uncoupled systems the two full-size matrices coincide, hence the two columns (colSU_eq_colFD_unc); "
+    "colSU_solves_options states the full-size equation and the v, a relations directly for every incrb subset and "
+    "both rf_disp_only values; colSU_zero_freq is the whole column at W = 0 (static equation on the elastic and "
+    "residual-flexibility rows, d = v = 0 and M[rb,rb] a = F[rb] on the rigid-body rows whatever their damping); "
+    "colSU_options / "
     "colFD_options show that for every incrb subset, both rf_disp_only values and every W the returned column is "
     "that column with exactly the excluded letters cleared on the rigid-body rows and v, a cleared on the "
     "residual-flexibility rows iff rf_disp_only. solvepsd: response PSD "
@@ -132,7 +178,8 @@ MANIFEST = {
     "option grid, dtype and shape axes included, and the constructor state is compared exactly.",
     "level_note": "Partial: the eigen-decomposition (eig) and eigh of pre_eig are specifications whose residuals are measured "
     "each run; the per-frequency loop and the pre_eig transforms are tied by correspondence; floating-point accuracy "
-    "is measured (1e-9 relative inside a conditioning guard; 2e-5 for float32 matrices), not proved.",
+    "is measured (1e-9 relative inside a conditioning guard; 2e-5 for float32 matrices), not proved; a user-given "
+    "rigid-body mode with damping on a coupled system is only tied (the source ignores that damping).",
     "technique": "Lean 4 proof (field algebra, Mathlib matrices and permutations, structural recursion for the elimination, "
     "decide for the incrb subsets and the recorded finding inputs) + numeric and exact differential correspondence "
     "with SolveUnc/FreqDirect/solvepsd + model-free residual oracle",
@@ -228,6 +275,14 @@ def gen_unc(rs, cplx, mkind, boundary=False):
             b[i] = 0.0
         elif c == "rf":
             k[i] = rs.uniform(1e5, 1e7)
+    rb_damped = False
+    if nrb and rs.random() < 0.6:
+        # uncoupled equations: a rigid-body mode is found from k alone and may carry damping, m q'' + b q' = F
+        # (findings F51 / F52); with two rigid-body modes sometimes only one of them is damped
+        rb_damped = True
+        for t, i in enumerate(_idx(cls, "rb")):
+            if t == 0 or rs.random() < 0.6:
+                b[i] = rs.uniform(0.05, 3.0) * m[i]
     rbmode = "auto" if rs.random() < 0.5 else "explicit"
     if boundary and nrb:
         # both sides of the 0.005 detection threshold (only meaningful for automatic detection)
@@ -266,6 +321,7 @@ def gen_unc(rs, cplx, mkind, boundary=False):
     return {
         "m": mm, "b": bb, "k": kk, "rb": rb, "rf": rfv, "pre_eig": False,
         "cls": cls, "unc": True, "cplx": cplx, "mkind": mkind, "boundary": bool(boundary and nrb),
+        "rb_damped": rb_damped,
     }
 
 
@@ -349,7 +405,11 @@ def gen_pre(rs, cplx, mkind):
         return A
 
     K = chain(ks)
-    prop = rs.random() < 0.35
+    # damping: a damper chain (coupled after pre_eig), stiffness-proportional, mass-proportional or general Rayleigh
+    # (the last three are diagonal after pre_eig: the uncoupled path; on a free-free model the rigid-body mode then
+    # carries the damping alpha -- how F51 surfaced through frclim.calcAM)
+    dstyle = str(rs.choice(["chain", "kprop", "mprop", "rayleigh"], p=[0.3, 0.15, 0.3, 0.25]))
+    alpha = float(rs.uniform(0.05, 1.5))
     if mkind == "none":
         mm, M = None, np.eye(n)
     elif mkind == "vector":
@@ -358,13 +418,15 @@ def gen_pre(rs, cplx, mkind):
     else:
         M = _sym_with_eigs(rs, rs.uniform(0.5, 4.0, n))
         mm = M
-    B = 2e-4 * K if prop else chain(cs)
+    B = {"chain": chain(cs), "kprop": 2e-4 * K, "mprop": alpha * M, "rayleigh": alpha * M + 2e-4 * K}[dstyle]
     if cplx:
         B = B * (1 + 0.1j)
+    if dstyle == "mprop" and mkind != "matrix" and rs.random() < 0.4:
+        B = np.diag(B).copy()  # a damping vector: `(u.T * b) @ u` in `_do_pre_eig`
     rf = [n - 1] if rs.random() < 0.3 else None
     return {
         "m": mm, "b": B, "k": K, "rb": None, "rf": rf, "pre_eig": True,
-        "cls": None, "unc": None, "cplx": cplx, "mkind": mkind, "boundary": False, "free": free,
+        "cls": None, "unc": None, "cplx": cplx, "mkind": mkind, "boundary": False, "free": free, "dstyle": dstyle,
     }
 
 
@@ -396,6 +458,7 @@ def spec_of(sysd, solver, incrb, rfd, freq, F):
         "incrb": incrb, "rfd": bool(rfd), "freq": [float(x) for x in freq], "F": _enc(F),
         "corpus": bool(sysd.get("corpus", False)),
         "variant": sysd.get("variant"),
+        "free": bool(sysd.get("free", False)), "dstyle": sysd.get("dstyle"), "fixed": sysd.get("fixed"),
     }
 
 
@@ -442,6 +505,32 @@ def _variant_system(sysd, variant):
             return None
         return s
     return s
+
+
+def _rb_damping(spec):
+    """(rigid-body rows, their damping block) of a modal-layout spec; (None, None) without rigid-body modes"""
+    cls = spec.get("cls") or []
+    rb = _idx(cls, "rb")
+    if not rb:
+        return None, None
+    n = len(cls)
+    B = _full(_dec(spec["b"]), n)
+    return rb, B
+
+
+def _rb_damped(spec):
+    """an uncoupled system in modal layout whose rigid-body modes (found from k alone) carry damping"""
+    rb, B = _rb_damping(spec)
+    return bool(rb and spec.get("unc") and not spec.get("boundary") and np.any(B[rb, rb] != 0))
+
+
+def _coupled_rb_damped(spec):
+    """a coupled system with a (necessarily user-given) rigid-body mode whose row or column of b is not zero:
+    outside the property (the detection rule defines a rigid-body mode of a coupled system by zero k and b);
+    SolveUnc solves it as a = M^-1 F without that damping, FreqDirect keeps it — tied by the correspondence
+    check, not judged by the oracle"""
+    rb, B = _rb_damping(spec)
+    return bool(rb and spec.get("unc") is False and (np.any(B[rb, :] != 0) or np.any(B[:, rb] != 0)))
 
 
 def _mk_solver(spec):
@@ -641,8 +730,21 @@ def _systems(ctx, rs):
             t = _variant_system(sysd, v)
             if t is not None:
                 extra.append(t)
-    out = _corpus() + out + extra
+    out = _corpus() + _systems_coupled_user_rb() + out + extra
     return out
+
+
+def _systems_coupled_user_rb():
+    """sibling (c) of F51: a *coupled* system whose rigid-body mode is given by the user although it carries damping.
+    The source solves it as a = M^-1 F (no damping; the rigid-body detection rule of coupled systems requires zero
+    damping) — the model does the same (`ColEnv.rbDamping` is zero on the coupled path); only tied, nothing claimed."""
+    M = np.diag([1.0, 2.0, 3.0])
+    K = np.array([[0.0, 0.0, 0.0], [0.0, 300.0, -50.0], [0.0, -50.0, 500.0]])
+    B = np.array([[0.7, 0.0, 0.0], [0.0, 0.5, 0.1], [0.0, 0.1, 0.8]])
+    base = {"rf": None, "pre_eig": False, "cls": ["rb", "el", "el"], "unc": False, "boundary": False,
+            "fixed": "coupled-user-rb-damped"}
+    return [dict(base, m=M, b=B, k=K, rb=[0], cplx=False, mkind="matrix"),
+            dict(base, m=None, b=B, k=K * (1 + 0.02j), rb=[0], cplx=True, mkind="none")]
 
 
 def _option_grid(rs, full):
@@ -745,6 +847,16 @@ def correspondence(ctx):
             ctx.count("corpus-cases")
         if 0.0 in spec["freq"]:
             ctx.count("freq:0Hz")
+        if spec["solver"] == "su" and _rb_damped(spec):
+            ctx.count("rb-damped:" + ("complex" if spec["cplx"] else "real"))
+            if 0.0 in spec["freq"]:
+                ctx.count("rb-damped:0Hz")
+        if spec.get("fixed"):
+            ctx.count(spec["fixed"])
+        if (spec["pre_eig"] and spec.get("free") and spec.get("dstyle") in ("mprop", "rayleigh") and ts is not None
+                and getattr(ts, "unc", False) and getattr(ts, "rbsize", 0)):
+            # free-free model, mass-proportional / Rayleigh damping: uncoupled after pre_eig, damped rigid-body mode
+            ctx.count("pre-eig:mass-proportional")
         if isinstance(sol, tuple):  # exception
             kind = _exc_kind(sol[1])
             ctx.count("error:" + kind)
@@ -782,6 +894,10 @@ def correspondence(ctx):
             ctx.count("path:complex-modes")
         impl = (sol.d, sol.v, sol.a)
         if not all(np.isfinite(c).all() for c in impl):
+            if all(np.isfinite(c).all() for c in model):
+                # the model (same formulas, same data) is finite: the dynamic stiffness is not singular here
+                ctx.disagree(tag + "-non-finite", spec, "non-finite entries in d, v or a", "a finite response")
+                continue
             ctx.skip("non-finite response (singular dynamic stiffness at a requested frequency)")
             continue
         # float32 matrices: the implementation keeps single-precision reciprocals / LU factors
@@ -811,7 +927,8 @@ def correspondence(ctx):
          "stream:state", "state:eig-path", "state:real-uncoupled", "state:rf-below-rb", "state:rb-unsorted-user",
          "state:rf-unsorted-user", "stream:shapes", "force:1d", "freq:scalar", "freq:repeated",
          "variant:f32", "variant:int", "variant:c64F", "psd:uf", "stream:gauss-spec", "gauss:singular-refused",
-         "gauss:pivoted"]
+         "gauss:pivoted", "rb-damped:real", "rb-damped:complex", "rb-damped:0Hz", "pre-eig:mass-proportional",
+         "coupled-user-rb-damped", "psd:rb-damped", "state:rb-damping-rows:real", "state:rb-damping-rows:complex"]
         + ["incrb:" + "".join(sorted(s)) for s in INCRB_SUBSETS]
     )
 
@@ -899,6 +1016,20 @@ def _state_stream(ctx, drv, state_jobs):
                 rt = 1e-5 if spec.get("variant") == "f32" else 1e-12
                 if np.shape(got) != np.shape(want) or abs(got - want).max(initial=0.0) > rt * max(1.0, abs(want).max(initial=0.0)):
                     num_bad = "self.%s is not the decomposition of the mass rows %s" % (nm, r_)
+            # the damping `_solve_freq_rb` uses for the rigid-body modes of an uncoupled system: `b[_rb]` (real
+            # coefficients) / `brb` kept by `get_su_eig` before the reduction (complex coefficients)
+            if impl["unc"] and model["rb"] and impl["nonrf"]:
+                dr = lst(f[14]) if len(f) > 14 else None
+                got = getattr(ts, "brb", None) if eig_path else (ts.b[ts._rb] if np.ndim(ts.b) == 1 else None)
+                ctx.count("state:rb-damping-rows:" + ("complex" if eig_path else "real"))
+                if dr is None or got is None:
+                    num_bad = "the rigid-body damping (%s) is not available: model rows %s" % (
+                        "self.brb" if eig_path else "self.b[self._rb]", dr)
+                else:
+                    want = np.diag(B)[dr]
+                    got = np.atleast_1d(got)
+                    if np.shape(got) != np.shape(want) or abs(got - want).max(initial=0.0) > tol * max(1.0, abs(want).max(initial=0.0)):
+                        num_bad = "the rigid-body damping %s is not the rows %s of b" % (np.asarray(got).tolist(), dr)
         if impl != model:
             ctx.disagree("state", spec, impl, model)
         elif num_bad:
@@ -997,12 +1128,17 @@ def _run_psd(spec, ts=None):
 
 
 def _psd_stream(ctx, rs, drv, systems, worst):
-    cands = [s for s in systems if not s["boundary"]]
+    cands = [s for s in systems if not s["boundary"] and not s.get("fixed")]
+    damped = [s for s in cands if s.get("rb_damped") or (s["pre_eig"] and s.get("free") and s.get("dstyle") in ("mprop", "rayleigh"))]
     npsd = ctx.pick(80, 600)
     jobs = []
     for j in range(npsd):
-        sysd = cands[int(rs.integers(0, len(cands)))]
+        # every 8th case on a system with a damped rigid-body mode (uncoupled, or free-free + pre_eig)
+        pool = damped if (damped and j % 8 == 0) else cands
+        sysd = pool[int(rs.integers(0, len(pool)))]
         solver = "su" if (sysd["pre_eig"] or rs.random() < 0.6) else "fd"
+        if pool is damped:
+            solver = "su"  # the required branch psd:rb-damped is about SolveUnc (FreqDirect comes through the random picks)
         spec = _psd_case(rs, sysd, solver)
         ts, res = _run_psd(spec)
         # eigen data is only available after an fsolve call (solvepsd made one)
@@ -1021,6 +1157,9 @@ def _psd_stream(ctx, rs, drv, systems, worst):
         ctx.case(("psd", line), nontrivial=True, branch="stream:psd")
         if spec.get("rbduf", 1.0) != 1.0 or spec.get("elduf", 1.0) != 1.0:
             ctx.count("psd:uf")
+        if spec["solver"] == "su" and (_rb_damped(spec) or (spec["pre_eig"] and spec.get("free")
+                                                             and spec.get("dstyle") in ("mprop", "rayleigh"))):
+            ctx.count("psd:rb-damped")
         if rep == "bad-op":
             raise Infra("driver C02 rejected a psd request")
         if einfo is not None and (not einfo["ok"] or einfo["cond"] > 1e6
@@ -1094,6 +1233,8 @@ def _gauss_stream(ctx, rs, drv, worst):
 OBSERVATIONS = {}
 FAM_A = "fsolve-su-rb-index-array-ge2-incrb-dv"
 FAM_B = "su-imrb-rf-index-before-rb-mass-given"
+FAM_D_REAL = "fsolve-unc-damped-rigid-body-mode-damping-ignored"          # F51
+FAM_D_CPLX = "fsolve-unc-complex-coefficients-damped-rigid-body-mode"     # F52
 
 
 def _contig(ix):
@@ -1150,6 +1291,41 @@ def _rel(res, *terms):
     return float(abs(res).max(initial=0.0)) / max(sc, 1e-300)
 
 
+def _singular_somewhere(spec, M, B, K, freq, ts=None):
+    """is some dynamic stiffness the solver has to invert outside the conditioning domain (cond > 1e8; 1e5 for float32
+    matrices) at a requested frequency?  SolveUnc at 0 Hz: the rigid-body block is excluded (documented convention)."""
+    lim = 1e5 if spec.get("variant") == "f32" else 1e8
+    n = M.shape[0]
+    if spec["pre_eig"] or not spec["cls"]:
+        rf = list(spec["rf"] or [])
+        blocks, zero_ok = [[i for i in range(n) if i not in rf]], False
+    else:
+        cls = spec["cls"]
+        rb, el = _idx(cls, "rb"), _idx(cls, "el")
+        if spec["solver"] == "fd":
+            blocks, zero_ok = [sorted(rb + el)], False
+        else:
+            blocks, zero_ok = [el, rb], True
+    for f in freq:
+        W = 2 * np.pi * f
+        if W == 0 and spec["pre_eig"] and not spec["rf"]:
+            # modal coordinates: the modes the solver took as rigid-body (|k| < 0.005) follow the 0 Hz convention,
+            # every other mode must have a stiffness inside the conditioning domain
+            w = np.sort(abs(la.eigvalsh(K, M)))
+            w = w[int(getattr(ts, "rbsize", 0) or 0):]
+            if w.size and (w.min() == 0 or w.max() / w.min() > lim):
+                return True
+            continue
+        for bi, blk in enumerate(blocks):
+            if not blk or (zero_ok and bi == 1 and (W == 0 or not _rb_damped(spec))):
+                continue
+            H = -W * W * M[np.ix_(blk, blk)] + 1j * W * B[np.ix_(blk, blk)] + (K[np.ix_(blk, blk)] if not (zero_ok and bi == 1) else 0)
+            with np.errstate(all="ignore"):
+                if not np.isfinite(H).all() or np.linalg.cond(H) > lim:
+                    return True
+    return False
+
+
 def _oracle_fsolve(spec, other=None):
     """the property on the public API; returns a list of failure dicts (model-free)"""
     out = []
@@ -1176,7 +1352,15 @@ def _oracle_fsolve(spec, other=None):
     if not isinstance(inc, str):
         inc = {0: "", 1: "va", 2: "dva"}[inc]
     if not all(np.isfinite(c).all() for c in (d, v, a)):
-        return out  # singular dynamic stiffness at a requested frequency: outside the domain
+        # outside the domain only if a dynamic stiffness really is singular at a requested frequency
+        if not _singular_somewhere(spec, M, B, K, freq, ts):
+            zero_hz = bool(spec["solver"] == "su" and 0.0 in spec["freq"] and _rb_damped(spec)
+                           and not np.isfinite(np.asarray(a)[:, np.array(spec["freq"]) == 0.0]).all())
+            fail("fsolve-unc-damped-rigid-body-mode-0Hz-non-finite" if zero_hz else _fam(spec, "non-finite-response"),
+                 "non-finite entries in d, v or a although no dynamic stiffness is singular at the requested frequencies"
+                 + (" (0 Hz with a damped rigid-body mode: the documented convention is a = F/m, v = d = 0)" if zero_hz else ""),
+                 [bool(np.isfinite(c).all()) for c in (d, v, a)], "a finite response")
+        return out
     if spec["pre_eig"]:
         # physical coordinates: the whole equation must hold when nothing is static or left out
         if spec["rf"] or set(inc) != set("dva"):
@@ -1197,6 +1381,12 @@ def _oracle_fsolve(spec, other=None):
         return out
     cls = spec["cls"]
     rb, el, rf = _idx(cls, "rb"), _idx(cls, "el"), _idx(cls, "rf")
+    damped_rb = _rb_damped(spec)
+    fam_damped = FAM_D_CPLX if spec["cplx"] else FAM_D_REAL
+    skip_rb = _coupled_rb_damped(spec)
+    if skip_rb:
+        OBSERVATIONS["coupled-system-user-rb-with-damping-not-judged"] = OBSERVATIONS.get(
+            "coupled-system-user-rb-with-damping-not-judged", 0) + 1
     for j, f in enumerate(freq):
         W = 2 * np.pi * f
         col = lambda x: x[:, j]  # noqa: E731
@@ -1225,9 +1415,16 @@ def _oracle_fsolve(spec, other=None):
                 if _rel(v[rf, j] - 1j * W * d[rf, j], v[rf, j], W * d[rf, j]) > ORACLE_TOL or \
                         _rel(a[rf, j] + W * W * d[rf, j], a[rf, j], W * W * d[rf, j]) > ORACLE_TOL:
                     fail(_fam(spec, "v-a-rf"), "v != iW d or a != -W^2 d on rf rows", None, "v = iWd, a = -W^2 d")
-        # rigid-body rows (k = b = 0 by construction unless the threshold stream)
-        if rb and not spec["boundary"]:
-            arb = np.linalg.solve(M[np.ix_(rb, rb)], F[rb, j])
+        # rigid-body rows: k = 0 by construction (unless the threshold stream); for an uncoupled system they may carry
+        # damping (m q'' + b q' = F: the rows are found from k alone), for a coupled system b = 0 on them as well.
+        # At exactly 0 Hz the equation of a rigid-body row, 0 * d = F, has no solution: the documented convention
+        # a = M^-1 F, v = d = 0 is what is required there (with or without damping) instead of the residual rule.
+        if rb and not spec["boundary"] and not skip_rb:
+            Mrb, Brb = M[np.ix_(rb, rb)], B[np.ix_(rb, rb)]
+            if W != 0 and damped_rb:
+                arb = -W * W * np.linalg.solve(-W * W * Mrb + 1j * W * Brb, F[rb, j])
+            else:
+                arb = np.linalg.solve(Mrb, F[rb, j])
             want = {
                 "a": arb if "a" in inc else 0 * arb,
                 "v": arb / (1j * W) if ("v" in inc and W != 0) else 0 * arb,
@@ -1242,10 +1439,19 @@ def _oracle_fsolve(spec, other=None):
                              "rigid-body %s row not exactly zero although excluded by incrb=%r (or W = 0)" % (nm, inc),
                              got.tolist(), "exact zeros")
                 elif _rel(got - w, w) > ORACLE_TOL:
-                    fail(FAM_B if fam_b else _fam(spec, "rb-%s" % nm),
-                         "rigid-body %s row is not the solution of -W^2 m d = F" % nm, got.tolist(), w.tolist())
+                    ignored = False
+                    if damped_rb and W != 0:
+                        # is the observed row the solution *without* the damping (a = M^-1 F)?  then it is F51 / F52
+                        # whatever else is special about the layout
+                        und = np.linalg.solve(Mrb, F[rb, j]) * {"a": 1.0, "v": 1 / (1j * W), "d": -1 / (W * W)}[nm]
+                        ignored = _rel(got - und, und) <= ORACLE_TOL
+                    fail(fam_damped if ignored else FAM_B if fam_b else fam_damped if (damped_rb and W != 0)
+                         else _fam(spec, "rb-%s" % nm),
+                         "rigid-body %s row is not the solution of (-W^2 m + iW b) d = F%s" % (
+                             nm, " (damped rigid-body mode of an uncoupled system)" if damped_rb else ""),
+                         got.tolist(), w.tolist())
     # the two solvers agree
-    if other is not None and not spec["boundary"]:
+    if other is not None and not spec["boundary"] and not skip_rb:
         o_ts, o_sol = _run_impl(other)
         if isinstance(o_sol, tuple):
             fail(_family_exc(other, o_ts is None), "fsolve raises %s on a valid system: %s" % (o_sol[1], o_sol[2]),
@@ -1258,9 +1464,15 @@ def _oracle_fsolve(spec, other=None):
                 if nonrf and np.linalg.cond(-W * W * M[np.ix_(nonrf, nonrf)] + 1j * W * B[np.ix_(nonrf, nonrf)] + K[np.ix_(nonrf, nonrf)]) > 1e8:
                     cond_ok = False
             if cond_ok:
+                nrb = [i for i in range(n) if i not in rb]
                 for nm, x, y in (("d", d, o_sol.d), ("v", v, o_sol.v), ("a", a, o_sol.a)):
                     if _rel(x - y, x, y) > 10 * ORACLE_TOL:
-                        fail(FAM_B if (fam_b or _in_family_b(other)) else _fam(spec, "differs-from-other-solver-%s" % nm), "SolveUnc.fsolve and FreqDirect.fsolve disagree on %s" % nm,
+                        # a disagreement confined to the damped rigid-body rows of an uncoupled system is F51 / F52
+                        only_rb = damped_rb and _rel(x[nrb] - y[nrb], x, y) <= 10 * ORACLE_TOL
+                        fail(fam_damped if only_rb else FAM_B if (fam_b or _in_family_b(other))
+                             else _fam(spec, "differs-from-other-solver-%s" % nm),
+                             "SolveUnc.fsolve and FreqDirect.fsolve disagree on %s%s" % (
+                                 nm, " (rows of the damped rigid-body modes only)" if only_rb else ""),
                              _enc(x), _enc(y))
     return out
 
